@@ -2523,6 +2523,8 @@ static bool upipe_h265f_find(struct upipe *upipe,
                 return false;
             }
             upipe_h265f->au_size++;
+            /* the scanner must not see the octets around it as contiguous */
+            upipe_h265f->scan_context = (upipe_h265f->scan_context << 8) | junk;
 
             /* retrieve the octet preceding the start code, if it exists */
             if (p <= buffer + 6 &&
